@@ -22,7 +22,10 @@ for sid in sorted(os.listdir(os.path.join(V, 'seeded'))):
         differs = open(bf, encoding='utf-8', errors='replace').read() != \
             open(af, encoding='utf-8', errors='replace').read()
     else:
-        differs = t.get('demo_rc_changed') == '1' and t.get('demo_rc_unchanged') == '0'
+        # any recorded run in which the demonstration failed with the change and passed without
+        runs = [t] + t.get('earlier_runs', [])
+        differs = any(r.get('demo_rc_changed') == '1' and r.get('demo_rc_unchanged') == '0'
+                      for r in runs)
     valid = passed and differs
     meta = {'id': sid, 'breaks_property': sid[:3], 'summary': title,
             'needs_to_manifest': 'see notes.md',
